@@ -19,6 +19,11 @@
 //	routecheck drive -seed S -n N -ops K -out trace.ndjson -res result.json
 //	    the same with random request streams; the leader's execution is recorded for DbTrace.tla.
 //	routecheck rerun -in replay.json -out trace.ndjson -res result.json
+//	routecheck live -in behaviours.ndjson -out trace.ndjson -res result.json [-groups G -writers W]
+//	    the write requests of the behaviours through real RF=3 leaders under concurrent writers (see cmdLive).
+//	routecheck crashpoints -in behaviours.ndjson -out result.json [-max sequences -workers W]
+//	    crash images of the storage engine at every batch commit (see crashOne); the result has the format of
+//	    replay ("routes" = crash images checked, mismatches of kind "crash").
 package main
 
 import (
@@ -964,9 +969,252 @@ func cmdLive(args []string) int {
 	return 0
 }
 
+// ---------------------------------------------------------------- crash points of the storage engine
+
+// crashOne runs one sequence on a reference kv.DB (compared step by step with what OxiaDb.tla demands) and on
+// a kv.DB whose engine reports every batch commit; every crash image (see dbmodel/crash.go) is opened by a
+// fresh kv.DB and must be (a) the reference after the entries 0..c, c = the commit offset stored in the
+// image, and (b) the reference after the whole log once the entries c+1.. were applied to it.
+func crashOne(beh []m.Step) (mm *mismatch, images int, harness error) {
+	ref, err := m.NewDBEngine()
+	if err != nil {
+		return nil, 0, err
+	}
+	defer ref.Close()
+	cr, err := m.NewCrashDB()
+	if err != nil {
+		return nil, 0, err
+	}
+	defer cr.Close()
+	type entry struct {
+		req m.Req
+		ts  int
+	}
+	var log []entry
+	dumps := map[int][]m.DumpEntry{}
+	if dumps[-1], err = m.DumpDB(ref.DB()); err != nil {
+		return nil, 0, err
+	}
+	probeKeys := m.KeysOf(beh)
+	done := 0
+	fail := func(i int, what string) *mismatch {
+		return &mismatch{Mode: "db", Kind: "crash", Behaviour: beh[:i+1], Step: i, What: what}
+	}
+	for i := range beh {
+		want := &beh[i]
+		if want.A == "Routes" {
+			break
+		}
+		done = i
+		if want.A == "Write" && !m.WellFormed(&want.Req) {
+			continue // refused by the leader before logging
+		}
+		got := argsOf(want)
+		problems := m.Exec(ref, &got, probeKeys)
+		got.Normalize()
+		for _, p := range problems {
+			if strings.HasPrefix(p, "harness:") {
+				return nil, 0, fmt.Errorf("%s", p)
+			}
+		}
+		if len(problems) > 0 {
+			return fail(i, "read paths of the reference database disagree: "+strings.Join(problems, "; ")), 0, nil
+		}
+		if want.Kf {
+			break
+		}
+		if d := m.Diff(want, &got, scope); d != "" {
+			return fail(i, "reference kv.DB deviates from OxiaDb.tla: "+d), 0, nil
+		}
+		if want.A == "Restart" {
+			if err := cr.Restart(); err != nil {
+				return fail(i, "restart of the database under crash observation: "+err.Error()), 0, nil
+			}
+			continue
+		}
+		if err := cr.Apply(want.Req.Proto(), got.Off, want.Ts); err != nil {
+			return fail(i, fmt.Sprintf("applying entry %d to the database under crash observation: %v", got.Off, err)), 0, nil
+		}
+		if got.Off != len(log) {
+			return nil, 0, fmt.Errorf("harness: entry got offset %d, %d entries applied", got.Off, len(log))
+		}
+		log = append(log, entry{want.Req, want.Ts})
+		if dumps[got.Off], err = m.DumpDB(ref.DB()); err != nil {
+			return nil, 0, err
+		}
+	}
+	n := len(log)
+	if n == 0 {
+		return nil, 0, nil
+	}
+	last := dumps[n-1]
+	for _, img := range cr.Images {
+		images++
+		what, err := func() (string, error) {
+			db, closeAll, err := m.OpenImage(img)
+			if err != nil {
+				return "the database does not open: " + err.Error(), nil
+			}
+			defer closeAll()
+			c64, err := db.ReadCommitOffset()
+			if err != nil {
+				return "the commit offset cannot be read: " + err.Error(), nil
+			}
+			c := int(c64)
+			want, ok := dumps[c]
+			if !ok {
+				return fmt.Sprintf("the database stores commit offset %d, the log has the entries 0..%d", c, n-1), nil
+			}
+			d, err := m.DumpDB(db)
+			if err != nil {
+				return "", err
+			}
+			name := fmt.Sprintf("the entries 0..%d applied once each", c)
+			if c < 0 {
+				name = "an empty database (no entry applied)"
+			}
+			if w, _ := m.DiffDumps(want, d, name, fmt.Sprintf("the crash image (stored commit offset %d)", c)); w != "" {
+				return "the database is not the result of applying the entries up to its commit offset: " + w, nil
+			}
+			for o := c + 1; o < n; o++ {
+				if err := m.ApplyTo(db, log[o].req.Proto(), o, log[o].ts); err != nil {
+					return fmt.Sprintf("replay of entry %d after the restart: %v", o, err), nil
+				}
+			}
+			if d, err = m.DumpDB(db); err != nil {
+				return "", err
+			}
+			if w, _ := m.DiffDumps(last, d, fmt.Sprintf("the whole log (entries 0..%d) applied once each", n-1),
+				fmt.Sprintf("the crash image after restart and replay from offset %d", c+1)); w != "" {
+				return "after restart and replay the database is not the result of applying the log: " + w, nil
+			}
+			return "", nil
+		}()
+		if err != nil {
+			return nil, images, err
+		}
+		if what != "" {
+			return fail(done, fmt.Sprintf("crash right after batch commit #%d (made while entry %d was applied; flushed): %s", img.Commit, img.During, what)), images, nil
+		}
+	}
+	// the observed database itself (nothing crashed) is the reference
+	d, err := m.DumpDB(cr.DB())
+	if err != nil {
+		return nil, images, err
+	}
+	if w, _ := m.DiffDumps(last, d, "reference", "database created through the commit-reporting factory"); w != "" {
+		return nil, images, fmt.Errorf("harness: the commit-reporting factory is not transparent: %s", w)
+	}
+	return nil, images, nil
+}
+
+func cmdCrashpoints(args []string) int {
+	fs := flag.NewFlagSet("crashpoints", flag.ExitOnError)
+	in := fs.String("in", "", "ndjson of behaviours")
+	out := fs.String("out", "", "result json")
+	workers := fs.Int("workers", 8, "")
+	maxSeq := fs.Int("max", 0, "sequences used at most (0: all)")
+	maxBad := fs.Int("maxbad", 25, "")
+	_ = fs.Parse(args)
+	m.Quiet()
+	f, err := os.Open(*in)
+	if err != nil {
+		fmt.Fprintln(os.Stderr, err)
+		return 2
+	}
+	defer f.Close()
+	sc := bufio.NewScanner(f)
+	sc.Buffer(make([]byte, 1<<20), 1<<28)
+	var seqs [][]m.Step
+	seenSeq := map[string]bool{}
+	nLines := 0
+	for sc.Scan() {
+		if len(sc.Bytes()) == 0 {
+			continue
+		}
+		nLines++
+		var beh []m.Step
+		if err := json.Unmarshal(sc.Bytes(), &beh); err != nil {
+			fmt.Fprintln(os.Stderr, "bad behaviour line:", err)
+			return 2
+		}
+		for len(beh) > 0 && beh[len(beh)-1].A == "Routes" {
+			beh = beh[:len(beh)-1]
+		}
+		kb, _ := json.Marshal(beh)
+		if len(beh) == 0 || seenSeq[string(kb)] {
+			continue
+		}
+		seenSeq[string(kb)] = true
+		if *maxSeq == 0 || len(seqs) < *maxSeq {
+			seqs = append(seqs, beh)
+		}
+	}
+	var res result
+	var mu sync.Mutex
+	var harnessErr error
+	bad := 0
+	seen := map[string]bool{}
+	jobs := make(chan []m.Step, len(seqs))
+	for _, b := range seqs {
+		jobs <- b
+	}
+	close(jobs)
+	var wg sync.WaitGroup
+	for w := 0; w < *workers; w++ {
+		wg.Add(1)
+		go func() {
+			defer wg.Done()
+			for beh := range jobs {
+				mu.Lock()
+				stop := bad >= *maxBad || harnessErr != nil
+				mu.Unlock()
+				if stop {
+					continue
+				}
+				mm, images, herr := crashOne(beh)
+				if mm != nil && herr == nil {
+					// deterministic: a deviation must show again
+					if mm2, _, herr2 := crashOne(beh); herr2 != nil || mm2 == nil {
+						herr = fmt.Errorf("a deviation did not show again on re-execution: %s", mm.What)
+					}
+				}
+				mu.Lock()
+				res.Steps += len(beh)
+				res.Routes += images
+				if herr != nil && harnessErr == nil {
+					harnessErr = herr
+				}
+				if mm != nil && herr == nil {
+					bad++
+					if c := classOf(mm.What); !seen[c] {
+						seen[c] = true
+						res.Mismatches = append(res.Mismatches, *mm)
+					}
+				}
+				mu.Unlock()
+			}
+		}()
+	}
+	wg.Wait()
+	if harnessErr != nil {
+		fmt.Fprintln(os.Stderr, "harness failure:", harnessErr)
+		return 2
+	}
+	res.Behaviours = nLines
+	res.Sequences = len(seqs)
+	res.Bad = bad
+	b, _ := json.Marshal(res)
+	if err := os.WriteFile(*out, b, 0o644); err != nil {
+		fmt.Fprintln(os.Stderr, err)
+		return 2
+	}
+	return 0
+}
+
 func main() {
 	if len(os.Args) < 2 {
-		fmt.Fprintln(os.Stderr, "usage: routecheck replay|drive|rerun|live ...")
+		fmt.Fprintln(os.Stderr, "usage: routecheck replay|drive|rerun|live|crashpoints ...")
 		os.Exit(2)
 	}
 	switch os.Args[1] {
@@ -978,6 +1226,8 @@ func main() {
 		os.Exit(cmdRerun(os.Args[2:]))
 	case "live":
 		os.Exit(cmdLive(os.Args[2:]))
+	case "crashpoints":
+		os.Exit(cmdCrashpoints(os.Args[2:]))
 	}
 	os.Exit(2)
 }
